@@ -17,7 +17,11 @@ import sim as simmod
 import swarm
 
 VERIF = boot.VERIF
-RUN_TIMEOUT_S = 120
+RUN_TIMEOUT_S = 600  # wall-clock backstop per run (a run normally takes 5-200 ms); never a verdict
+
+
+class RunTimeout(BaseException):
+    pass
 
 
 def load_known():
@@ -98,6 +102,9 @@ def run_generated(prop, tier, seed, known, want_trace=False):
         res["violation"] = {"prop": v.prop, "check": v.check, "detail": v.detail}
     except core.AbortRun as a:
         res["aborted"] = str(a)
+    except RunTimeout:
+        res["internal"] = "timeout: run seed=%d exceeded the %ds wall-clock backstop\n%s" % (
+            seed, RUN_TIMEOUT_S, traceback.format_exc()[-1500:])
     except Exception:  # noqa: BLE001
         res["internal"] = traceback.format_exc()
     finally:
@@ -223,16 +230,28 @@ def shrink(prop, cfg, trace, target, known, max_replays=400):
 # ------------------------------------------------------------------------------- batch
 
 def _worker(args):
+    import signal
+
     prop, tier, seeds, known, deadline = args
     faulthandler.enable()
+
+    def on_alarm(signum, frame):
+        raise RunTimeout()
+
+    signal.signal(signal.SIGALRM, on_alarm)
     out = []
     for seed in seeds:
         if time.time() > deadline:
             break
-        faulthandler.dump_traceback_later(RUN_TIMEOUT_S, exit=True)
+        # Python-level backstop first (keeps the pool alive), hard exit only if that cannot fire
+        signal.alarm(RUN_TIMEOUT_S)
+        faulthandler.dump_traceback_later(RUN_TIMEOUT_S + 120, exit=True)
         t0 = time.time()
-        r = run_generated(prop, tier, seed, known)
-        faulthandler.cancel_dump_traceback_later()
+        try:
+            r = run_generated(prop, tier, seed, known)
+        finally:
+            signal.alarm(0)
+            faulthandler.cancel_dump_traceback_later()
         r["wall"] = time.time() - t0
         # keep worker->parent traffic small
         r["distinct"] = {k: [hashlib.sha1(repr(x).encode()).hexdigest()[:12] for x in v]
